@@ -31,6 +31,26 @@ CHECKS = {
    text="Decides 'no input line makes the parser panic' up to reviewed guard arguments: every overflow/bounds assert, unwrap, index, RefCell borrow reachable from CommandParser::{new,parse}, UciMove::from_str/fmt is auto-discharged or reviewed by exact key. Structural clauses of faithful parsing (dispatch set, GO_TOKENS = arms, duplicate detection). Does not decide numeric value faithfulness.",
    note="Trusted: rustc MIR, extractor, reviewed guard arguments, panic API list; both profiles differ only in the arithmetic asserts, which are judged in the dev/test profile (the one in which they exist).",
    ref="4/C15"),
+ "C03": dict(
+   technique="static analysis: Move layout derived from getter/setter MIR, bit-level may-analysis with integer widths, make/unmake write-set and flag-mirror comparison, all-paths balance of probes",
+   text="Decides, for every clock value and move at once, structural necessary conditions of make/unmake being inverse: every undo field's setter can reach all bits of the field (abstract interpretation of the written expression), make and unmake write the same board fields, each castling-right flag is cleared/restored under the same predicate for the same player, castling is undone with swapped squares, saved = restored fields, probes are balanced on all paths. Does not decide bitboard equality after make+unmake for every move kind.",
+   note="Trusted: rustc MIR, the extractor, the path evaluator and bit-mask transfer functions (about 150 lines).",
+   ref="4/C03"),
+ "C10": dict(
+   technique="static analysis: constant evaluation of trait constants per implementing type, operand inspection of comparisons on Bitboard.halfmove_clock, dominance / post-dominance of history writes, region inspection of the repetition branch",
+   text="Decides that no comparison of the ply counter with a constant in the engine crates can select the fifty-move draw below 100 plies (for every implementing heuristic), that the history is written before it is counted and after every replayed move, that the repetition threshold is exactly three and that the repetition value is built from the draw score / contempt / ply parity only. Does not decide repetition counting over arbitrary histories.",
+   note="Trusted: rustc const evaluation and MIR, the extractor. Assumes make adds exactly 1 to the clock per ply (C02.R3).",
+   ref="4/C10"),
+ "C14": dict(
+   technique="static analysis: backward slice (data + control dependence) on MIR from the '#' constant to the in-check test; reader/writer letter-table agreement",
+   text="Decides that the SAN writer's '#' suffix depends on an in-check test evaluated on the position after the move (so stalemate cannot be written as mate), that '+' depends on it too, and structural agreement of reader and writer. Does not decide minimal disambiguation (known Nd2/Nd2 defect of the property statement: not reachable statically, not claimed).",
+   note="Trusted: rustc MIR, the extractor, the slicer (over-approximating; used only for must-depend).",
+   ref="4/C14"),
+ "C19": dict(
+   technique="static analysis: compiler-evaluated serde FIELDS/VARIANTS constants (after macro expansion) compared with the documented wire names",
+   text="Decides the name-level necessary conditions of decoding: tag sets of both message enums equal the documented ones, both are tagged by 'type', no accepted wire name is snake_case or capitalised, the state record accepts the clock/increment/status/moves keys. Does not decide value decoding, escapes or optional-field behaviour.",
+   note="Trusted: rustc const evaluation, serde_derive's convention of emitting FIELDS/VARIANTS, the spec table quoted from the property statement.",
+   ref="4/C19"),
 }
 NOT_APPLICABLE = {
  "C17": "PGN tokenisation under arbitrary read fragmentation is decided by runtime bytes; the only structural clause in reach (buffer read only behind ensure_buffer) is too weak to stand for the property (DESIGN.md section 1).",
